@@ -251,6 +251,7 @@ type fakeController struct {
 	name    string
 	y       *sched
 	failing bool // Start returns an error instead of blocking
+	quit    chan struct{}
 
 	mu      sync.Mutex
 	started bool
@@ -278,11 +279,25 @@ func (c *fakeController) Start(ctx context.Context) error {
 		c.mu.Unlock()
 		return fmt.Errorf("controller %s failed to start", c.name)
 	}
-	<-ctx.Done()
+	select {
+	case <-ctx.Done():
+	case <-c.quit:
+	}
 	c.mu.Lock()
 	c.done = true
 	c.mu.Unlock()
 	return nil
+}
+
+// abandon releases a controller goroutine at the end of a case (harness cleanup, not an engine action).
+func (c *fakeController) abandon() {
+	c.mu.Lock()
+	defer c.mu.Unlock()
+	select {
+	case <-c.quit:
+	default:
+		close(c.quit)
+	}
 }
 
 func (c *fakeController) GetLogger() logr.Logger { return logr.Discard() }
